@@ -118,7 +118,7 @@ _ADDENDA = {
     "C01": " The initial state is handed over in C, Fortran and strided layouts.",
     "C03": " One-sided transforms are among the presentation variants; the plan system records the start time for which propagators are requested.",
     "C04": " Every configuration uses a complex Hermitian Hamiltonian; PT-TEBD runs include chain controls (a non-unital channel pre and post measurement, a unitary kick).",
-    "C07": " The plan system records the start time for which propagators are requested; the bath-dynamics cross-check covers all dagger orders, change_only, thermal and vacuum terms and first requests on a fresh object. SysCorrCache.tla models the incremental store of system correlations behind TwoTimeBathCorrelations (pad + append of the block compute_correlations returns; caller-supplied matrices); TLC checks Square / Covers / Aligned / Monotone over all request histories and that two deviations violate them; every history is replayed on a real object with a clock system and prime-valued coupling operator, the stored matrix decoded entry by entry to time pairs after every request and every answer compared with a fresh object's.",
+    "C07": " The plan system records the start time for which propagators are requested; the bath-dynamics cross-check covers all dagger orders, change_only, thermal and vacuum terms and first requests on a fresh object. SysCorrCache.tla models the incremental store of system correlations behind TwoTimeBathCorrelations (pad + append of the block compute_correlations returns; caller-supplied matrices); TLC checks Square / Covers / Aligned / Monotone over all request histories and that two deviations violate them; every history is replayed on a real object with a clock system and prime-valued coupling operator, the stored matrix decoded entry by entry to time pairs after every request and every answer compared with a fresh object's. The time axis of the bath occupations is checked over a lattice of (dt, N).",
     "C11": " Numerical parts: closed form of the commuting model for T = 0.08 .. 2.5 (1e-8); Hermiticity / positivity for non-commuting models; a re-used GibbsParameters object.",
     "C14": " Transient failures are raised by the Hamiltonian, the Lindblad rate or the Lindblad operator.",
     "C15": " Part (e): parameters estimated from a time-dependent system (guess_tempo_parameters) under a shift of the origin.",
@@ -131,7 +131,7 @@ _ADDENDA = {
     "C17": " The mode matrix is replayed with the existing file appearing between the writer's last test and its open (a second real writer), and writers are interrupted by an exception inside the j-th propagation step (between file operations).",
     "C18": " A Control object that served another start time before is re-used (cd-reused). Controls stamped outside the computed range never act; every schedule of <= 2 step controls is also replayed through the gradient's backward pass (exact derivative from the term trajectories).",
     "C19": " The model includes failing output (any redraw may raise) and the order of exit(); schedules with failing redraws are replayed.",
-    "C20": " The public attributes of every caller-supplied parameter object are compared before and after each re-use history; caller-supplied system_correlations are part of the layout/mutation enumeration; results are read again after the caller's arrays were overwritten; inputs nearly equal to inputs used before must respond linearly.",
+    "C20": " The public attributes of every caller-supplied parameter object are compared before and after each re-use history; caller-supplied system_correlations are part of the layout/mutation enumeration; results are read again after the caller's arrays were overwritten; inputs nearly equal to inputs used before must respond linearly. Snapshot.tla: objects built from caller-owned arrays (12 constructors) reflect the contents at construction time under every history of write / build / compute (deviation Alias must violate SnapshotSemantics), and every public attribute of a PowerLawSD, once updated, answers like a fresh object.",
 }
 for _k, _v in _ADDENDA.items():
     CHECKS[_k]["text"] += _v
